@@ -6,19 +6,19 @@ hook_ids=[l.split()[0] for l in hooks_commits if "verif hooks" in l]
 CHECKS = {
  "C06": ("vsched-inproc","generated send/recv programs x byte schedules (stale reads, spurious CAS, nested ops) vs hb-based FIFO/discard/empty oracle","§5 C06",
          "Exploration: tens of thousands of generated programs and schedules per run against an explicit history oracle; no absence claim. Right level because the property quantifies over interleavings and weak-memory outcomes that only a schedule-owning executor can sample."),
- "C07": ("vsched-inproc","same runs; vector-clock race check at every raw cell access + write/take alternation + drop ledger","§5 C07",
+ "C07": ("vsched-inproc","same runs (final drain partial: channel dropped non-empty) plus iterator scenarios over the exfiltrators' channels; vector-clock race check at every raw cell access + write/take alternation + drop ledger; real-thread reader/adder stress with a poisoning, quarantining allocator","§5 C07",
          "Exploration with a race detector driven by the orderings declared in the source; reports an allowed C11 execution whenever it fires."),
- "C08": ("vsched-inproc","same runs; isolated (peers frozen) ops step bound, no wait ops, no panics","§5 C08",
+ "C08": ("vsched-inproc","same runs plus iterator scenarios over the exfiltrators' channels; isolated (peers frozen) ops step bound, no wait ops, no panics, no heap operation inside send/recv; long-run soak of one channel against a FIFO model","§5 C08",
          "Exploration: every isolated operation is bounded in its own atomic steps; unbounded loops show as step-bound overruns."),
 }
 CHECKS.update({
- "C01": ("vsched-fork","generated register/unregister/deliver programs x byte schedules x nested deliveries (one forked child per case) vs quiescence, drop-once-by-remover and snapshot-epoch invariants","§5 C01",
+ "C01": ("vsched-fork","generated register/unregister/deliver programs x byte schedules x nested deliveries (one forked child per case) vs quiescence, drop-once-by-remover and snapshot-epoch invariants; owner-drop and self-pipe families; real in-flight anchors (kernel-delivered signal blocked inside an action while an action is removed)","§5 C01",
          "Exploration: thousands of generated multi-threaded histories per run, each with a harness-chosen interleaving at the granularity of every shared-memory access of the registry; the oracle is an invariant over the recorded history. No absence claim."),
- "C02": ("vsched-fork","same generator; the ordered action list of every delivery must equal the list of one registry state current during it (state sequence reconstructed from publish events)","§5 C02",
+ "C02": ("vsched-fork","same generator; the ordered action list of every delivery must equal the list of one registry state current during it (state sequence reconstructed from publish events); real in-flight anchors","§5 C02",
          "Exploration against a reference model of the registry state sequence."),
  "C03": ("vsched-fork","same generator with isolated deliveries (peers frozen); operation kinds, own step count, allocator wrapper, abort detection","§5 C03",
          "Exploration: each delivery's own operations are classified; any lock/wait/alloc or unbounded loop is a violation."),
- "C04": ("vsched-fork","same generator with real pre-existing dispositions installed via sigaction; foreign-handler call log (once, first, same arguments)","§5 C04",
+ "C04": ("vsched-fork","same generator with real pre-existing dispositions and generated sa_flags installed via sigaction (simulated kernel models SA_SIGINFO / SA_RESETHAND); foreign-handler call log (once, first, same arguments); real-signal anchors with queued payloads and a suspend/continue cycle","§5 C04",
          "Exploration over arrival instants relative to first registrations, including the take-over window."),
  "C18": ("vsched-fork","same generator with panicking mutators + fair completion (no deadlock / step bound) + directed sustained-overlap schedules (32 rounds, parameters generated)","§5 C18",
          "Exploration; liveness decided through finite surrogates (fair completion under a step bound, K-round periodic witness)."),
@@ -29,13 +29,13 @@ CHECKS.update({
          "Exploration against a reference model over generated histories of up to 200 operations on up to 20 signals."),
  "C12": ("forkprobe","model-based: generated new/add_signal/clone/drop histories over the full integer range x 3 exfiltrators; every watched signal probed by real raise after every step","§5 C12",
          "Exploration against an instance model; process death and panicking drops are observations."),
- "C13": ("forkprobe","generated descriptor kind x fill level x burst lengths x rejected registrations x descriptor-number reuse probe; byte-count oracle with measured capacity","§5 C13",
+ "C13": ("forkprobe","generated descriptor kind x fill level x burst lengths x rejected registrations x shared pipe x hung-up reader x descriptor-number reuse probe; byte-count oracle with measured capacity and write/send attempts counted by symbol interposition; iterator teardown scenarios under the executor","§5 C13",
          "Exploration with real deliveries into real pipes and sockets, including completely full ones."),
  "C14": ("forkprobe","entry point x signal number table (enumerated) x generated prefixes; independent expectation table, dispositions/Arc counts/descriptors compared before and after","§5 C14",
          "Exploration; the entry x boundary-number table is enumerated completely on every run (thorough: the whole [-2,130] range)."),
- "C15": ("forkprobe","model-based: generated flag/shutdown/spy/store/deliver histories; exact wait status, flag values and in-handler spy records vs the model","§5 C15",
+ "C15": ("forkprobe","model-based: generated flag/shutdown/spy/re-raise/store/deliver histories (helper threads, third-party SA_NODEFER handlers first); exact wait status, flag values and in-handler spy records vs the model; real-thread ordering stress with a self-tuned arming instant","§5 C15",
          "Exploration against a model that replays each delivery's actions in registration order."),
- "C16": ("forkprobe","differential: emulate_default_handler vs the kernel's own default action in paired probes (fresh non-orphaned process group), signal x context enumerated + generated extras; names vs C headers","§5 C16",
+ "C16": ("forkprobe","differential: emulate_default_handler vs the kernel's own default action in paired probes (fresh non-orphaned process group), signal x 7 contexts (incl. second thread, registry busy with the signal) enumerated + generated extras; names vs C headers","§5 C16",
          "Exploration / differential testing with the kernel as oracle; the signal x context table is enumerated completely on every run."),
  "C17": ("forkprobe","differential: Origin::extract vs an independent decoder on generated siginfo images; real deliveries by 12 mechanisms vs getpid/getuid/child pid","§5 C17",
          "Exploration over synthetic records (tens of thousands per run) plus every sending mechanism for real."),
